@@ -44,6 +44,12 @@ def handle (st : St) (toks : List String) : Option (St × String) :=
     let w ← w.toNat?; let q ← q.toNat?
     let cr ← (if creds == "-" then some none else (pList pCred creds).map some)
     some ({ ss := [{ cfg := { window := w, queue := q, creds := cr } }] }, "ok")
+  | ["defaults", w, pp, ps, q] => do
+    -- the defaults of broker.NewMemoryBackend() as the harness reads them from the real package: the model's `Cfg`
+    -- defaults (used for every field a script does not set) must be the same numbers
+    let w ← w.toNat?; let pp ← pp.toNat?; let ps ← ps.toNat?; let q ← q.toNat?
+    let d : Cfg := {}
+    some (st, if d.window = w ∧ d.parPub = pp ∧ d.parSub = ps ∧ d.queue = q then "ok" else "reject")
   | ["conn", c] => do let c ← c.toNat?; some (applyStim st (fun s => stim s (.conn c)))
   | "send" :: c :: rest => do
     let c ← c.toNat?; let p ← parsePacket rest
